@@ -1,6 +1,7 @@
 import ColaVerif.Basic.GInt
 import ColaVerif.Lemmas.ExprSound
 import ColaVerif.Lemmas.ExprHerm
+import ColaVerif.Lemmas.ExprClauses
 import Mathlib.Analysis.Complex.Basic
 
 /-!
@@ -76,6 +77,13 @@ clause hypotheses of the main theorem hold -/
 theorem C03_clauses_decide (re : R → R) (e : Ex R) :
     Ex.clauses re e = [] ↔ e.NoScalarOverOp ∧ e.NoLossyComplex re :=
   Ex.clauses_nil_iff re e
+
+/-- the clauses the harness attributes at a node (`Ex.rootClauses`: the node itself is a `c / A`;
+the node itself multiplies / divides a real-dtype operator by a complex scalar) are clauses of the
+expression in the sense of `C03_clauses_decide` — so an expression to which the harness attributes
+a clause is outside the hypotheses of `C03_sound_partial` -/
+theorem C03_rootClauses_sub (re : R → R) (e : Ex R) :
+    ∀ c ∈ Ex.rootClauses re e, c ∈ Ex.clauses re e := Ex.rootClauses_sub re e
 
 /-! ## rejection, rule by rule (no hypothesis on annotations needed beyond `Op.Good`) -/
 
@@ -403,6 +411,7 @@ end C03
 #print axioms C03.C03_sound_partial
 #print axioms C03.C03_rejects_partial
 #print axioms C03.C03_clauses_decide
+#print axioms C03.C03_rootClauses_sub
 #print axioms C03.C03_reject_matmul
 #print axioms C03.C03_reject_add
 #print axioms C03.C03_reject_kronsum
